@@ -69,6 +69,10 @@ type e1Spec struct {
 	Entropy   string `json:"entropy"`
 	Checksum  uint   `json:"checksum"`
 	Parts     []int  `json:"parts,omitempty"` // Write partition (enc)
+	// stall injection: task thread StallThread (first batch) polls StallPolls times in its wait loop
+	// while its predecessor stands still (mode "stall": one directed execution)
+	StallThread int   `json:"stall_thread,omitempty"`
+	StallPolls  int64 `json:"stall_polls,omitempty"`
 	Skip      bool   `json:"skip_blocks,omitempty"` // ctx skipBlocks
 	Magic     bool   `json:"magic,omitempty"`       // the data starts with the signature of a compressed format
 	// fault injection (panic with an error inside a shared-stream op, or in the compute phase)
@@ -466,6 +470,10 @@ var e1Directed []int
 func e1RunOnce(sp *e1Spec, preps []*e1Prep, prefix []int, sleepInit map[int]bool, useSleep, keepEvents bool) *e1Exec {
 	s := vcoop.New(prefix)
 	s.Directed = e1Directed
+	if sp.StallThread > 0 {
+		s.ArmStall(sp.StallThread, sp.StallPolls)
+		s.Directed = []int{sp.StallThread, sp.StallThread}
+	}
 	if sp.Mode == "cache" && !keepEvents {
 		s.UseCache = true
 		s.Visited = e1Visited
@@ -812,6 +820,32 @@ func e1Explore(sp *e1Spec) *e1Result {
 	for _, o := range sp.Oracles {
 		x.oracle[o] = true
 	}
+	if sp.Mode == "stall" {
+		ex := e1RunOnce(sp, preps, nil, nil, false, false)
+		res.Execs, res.Points, res.MaxPoints = 1, len(ex.sched.Points), len(ex.sched.Points)
+		res.Outcomes[ex.outcome]++
+		if ex.sched.StallUsed == 0 {
+			res.Capped = "the stalled thread never waited in a spin loop (no repeated load of one atomic from one site): nothing to stall"
+		}
+		for tag, detail := range ex.viols {
+			if tag == "harness" {
+				res.HarnessErr = detail
+				continue
+			}
+			if !x.wants(tag) {
+				res.OtherTags[tag]++
+				continue
+			}
+			ch := make([]int, len(ex.sched.Points))
+			for i, pt := range ex.sched.Points {
+				ch[i] = pt.Chosen
+			}
+			res.Viols = append(res.Viols, e1Viol{Tag: tag, Detail: fmt.Sprintf("%s [after task thread T%d polled the token %d times while its predecessor stood still]", detail, sp.StallThread, ex.sched.StallUsed), Choices: ch})
+		}
+		res.BoundDone = 0
+		res.WallS = time.Since(t0).Seconds()
+		return res
+	}
 	if sp.Mode == "sleep" || sp.Mode == "cache" {
 		e1Visited = map[uint64]struct{}{}
 		x.explore(nil, -1, nil)
@@ -996,7 +1030,9 @@ func e1Summary(c *Ctx, results []*e1Result) {
 	var rows []row
 	for _, r := range results {
 		bd := any("all interleavings (sleep sets, no preemption bound)")
-		if r.Spec.Mode == "cache" {
+		if r.Spec.Mode == "stall" {
+			bd = fmt.Sprintf("one directed execution: task thread T%d polls %d times while its predecessor stands still", r.Spec.StallThread, r.Spec.StallPolls)
+		} else if r.Spec.Mode == "cache" {
 			bd = "all interleavings (state-caching DFS, no preemption bound)"
 		} else if r.Spec.Mode != "sleep" {
 			bd = fmt.Sprintf("all interleavings with <= %d preemptions", r.BoundDone)
